@@ -2,7 +2,7 @@
 from . import C03 as _C03
 ID = "C04"
 VARIANTS = ["san", "simd"]
-RULE = ("ent -> t81: every Huffman-coded stream the real compressor / transcoder writes over the C03 request space (all sampling factors, "
+RULE = ("ent -> t81: every Huffman- or arithmetic-coded DCT stream the real compressor / transcoder writes over the C03 request space (all sampling factors, "
         "8/12-bit, default/optimised tables, random progressive and sequential scripts, restart intervals, 1/3/4 components) is parsed and "
         "decoded by the Lean decoder written from T.81, which enforces marker order and lengths, table definitions (Annex C code "
         "construction, Kraft), scan header constraints, progression rules (every bit once and in order), byte stuffing, RSTn numbering and "
@@ -13,7 +13,7 @@ RULE = ("ent -> t81: every Huffman-coded stream the real compressor / transcoder
         "jpeg_read_coefficients must accept them without warning and return exactly the writer's coefficients")
 TRUSTED = ["Model.T81 (decoder) and Model.T81Enc (writer) are written from the text of T.81, not from libjpeg-turbo; each is checked "
            "against the other and against the real codec on every generated stream",
-           "arithmetic-coded and lossless streams are outside this check (C03 oracle and C02 cover them on other terms)"]
+           "the reader decodes arithmetic-coded streams with an executable model of the QM decoder (Model/Arith.lean, no theorems about it); lossless streams are outside this check (C02)"]
 ASSUMPTIONS = ["JFIF/Adobe application segments are passed over; only T.81 syntax is judged"]
 
 HV = [[11], [11, 11, 11], [21, 11, 11], [22, 11, 11], [12, 11, 11], [41, 11, 11], [31, 11, 13], [12, 21, 11], [22, 21, 12], [11, 22, 11], [33, 11, 11],
@@ -34,8 +34,8 @@ def gen_ops(rng, tier):
     ops = []
     for _ in range(1500 if big else 300):
         o = _C03.one(rng).split(" ")
-        o[7] = str(rng.choice([0, 1, 2, 3, 3, 3, 6]))         # Huffman-coded processes only
-        if o[11] not in ("-1", "0", "1", "2", "3", "6"): o[11] = "-1"
+        o[7] = str(rng.choice([0, 1, 2, 3, 3, 3, 6, 4, 5, 7, 8]))
+        pass
         o.append(str(rng.choice([0, 0, 0, 1, 2, 3, 4])))        # quantisation tables: default / 16-bit entries in table 0, 1, both / all ones
         ops.append(" ".join(o))
     for _ in range(1500 if big else 320):
@@ -77,7 +77,7 @@ MANIFEST = {
              "libjpeg-turbo's decoder and the writer to libjpeg-turbo's decoder on every generated stream, in both directions."),
     "design_ref": "DESIGN.md 6.4",
     "note": ("Partial: a whole-stream theorem 'reader (writer image) = image' is not proved; its parts are, and the composition is exercised "
-             "by correspondence. Arithmetic and lossless processes are not judged here. Trusted: Lean kernel; axioms propext, Quot.sound, "
+             "by correspondence. The QM coder is modelled (and tied on every arithmetic stream) but not proved; lossless processes are not judged here. Trusted: Lean kernel; axioms propext, Quot.sound, "
              "Classical.choice; hand-written reader and writer."),
     "technique": "Lean 4 proof (framing and block-coder inverses) + two-way stream exchange between the Lean T.81 reader/writer and the real codec",
 }
